@@ -145,3 +145,16 @@ def body_is(name, file, fn, pattern, impl=None):
     code = re.sub(r'\s+', '', code)
     ok = re.fullmatch(pattern, code) is not None
     return dict(name=name, kind='frame/body-is', ok=ok, hits=1, detail=[] if ok else ['%s::%s body is `%s`' % (file, fn, code[:300])], sample=[code[:120]])
+
+
+def occurs(name, file, fn, pattern, n, impl=None):
+    """Obligation: inside fn, `pattern` occurs exactly n times."""
+    text = read_repo(file)
+    try:
+        loc = rsrc.find_fn(text, fn, impl)
+    except AnchorLost as e:
+        return dict(name=name, kind='frame/occurs', ok=None, hits=0, detail=['anchor lost: %s' % e], sample=[])
+    body = text[loc['body_open']:loc['body_close'] + 1]
+    k = len(re.findall(pattern, mask(body)))
+    return dict(name=name, kind='frame/occurs', ok=(k == n), hits=k,
+                detail=[] if k == n else ['%s::%s: `%s` occurs %d times, expected %d' % (file, fn, pattern, k, n)], sample=[])
